@@ -47,7 +47,7 @@ def run(tier):
     check.cov["traces_validated_against_impl"] += len(inst)
 
     # parsed trees: the analyze op compares the real traverser with the reflection pre-order
-    progs = inputs.clean_programs(tier, check)
+    progs = inputs.programs(check, tier)
     res = wp.run([{"op": "analyze", "src": p["src"], "ver": p["ver"], "kinds": True} for p in progs])
     pk = set()
     nparsed = 0
